@@ -1,5 +1,8 @@
 SPECIFICATION Spec
 CONSTANTS
   MaxSent = 1
+  MaxConn = 0
+  MiuClasses <- MC_NoClasses
+  RwVals <- MC_NoClasses
   Kinds <- MC_Quick
 CHECK_DEADLOCK FALSE
